@@ -52,7 +52,11 @@ def run(ctx):
             for f in FIELDS:
                 if ch.get(f) != "1":
                     bad.append("chunk %d: %s" % (i, f))
-            if ch.get("explains", "ok") != "ok":
+            if ch.get("explains", "ok") != "ok" and "divisor" in ch["explains"]:
+                # a divisor other than the one the model folds is still truthful metadata as far as C10 goes (congruence is
+                # judged above); whether it is the *exact* GCD is C18's business, where the same reason is decisive
+                ctx.count("divisor-deviations-left-to-C18")
+            elif ch.get("explains", "ok") != "ok":
                 # structural reachability: the observed table must be what the training model can produce for SOME
                 # merge/Huffman oracle (quantile cuts at value boundaries, consecutive merges, folded divisors, run-length
                 # rule). A failure here is a correspondence break unless a C10 conjunct also fails.
